@@ -67,11 +67,17 @@ class _Lock:
 
 
 def _prune(prefix, keep, n=3):
+    """Keep the n most recently used builds; never remove one used within the last hour (a concurrent check
+    on another tree - a scratch worktree with a seeded change - may still be running from it)."""
     ds = [d for d in os.listdir(CACHE) if d.startswith(prefix) and os.path.isdir(os.path.join(CACHE, d))]
     ds = [d for d in ds if d != keep]
     ds.sort(key=lambda d: os.path.getmtime(os.path.join(CACHE, d)))
+    now = time.time()
     while len(ds) >= n:
-        shutil.rmtree(os.path.join(CACHE, ds.pop(0)), ignore_errors=True)
+        d = ds.pop(0)
+        if now - os.path.getmtime(os.path.join(CACHE, d)) < 3600:
+            break
+        shutil.rmtree(os.path.join(CACHE, d), ignore_errors=True)
 
 
 def py_build(verbose=False):
